@@ -23,6 +23,7 @@ import (
 
 import (
 	c19bytes "bytes"
+	c19context "context"
 	c19json "encoding/json"
 	c19fmt "fmt"
 	c19os "os"
@@ -122,6 +123,8 @@ type c19Case struct {
 	BodyChecked  bool   `json:"body_checked"`
 	// request made earlier on the same resource ("" = none): thorough tier, two-request histories
 	History string `json:"history"`
+	// CtxDone: the request arrived with a context that is already cancelled (drivers whose entry point takes one)
+	CtxDone bool `json:"ctx_done"`
 	Notes                 string `json:"notes,omitempty"`
 }
 
@@ -257,6 +260,7 @@ func c19Finish(t *c19testing.T, c *c19Case) {
 		c.NodeError = int(n.GetSum(c19base.MetricEventError)) - c19Base.err
 	}
 	c.History = c19History
+	c.CtxDone = c19CtxDone
 	c.PrivateChain = c19strings.Contains(c.Notes, "private slot chain")
 	c.FallbackAvailable = !c19strings.Contains(c.Notes, "fallback_option_available=false")
 	var buf c19bytes.Buffer
@@ -297,15 +301,41 @@ func c19NodeCounters(resource string) string {
 		n.GetSum(c19base.MetricEventComplete), n.GetSum(c19base.MetricEventError))
 }
 
-// c19Matrix calls f for the 12 cases admitted x fallback x handler.
+// c19UsesCtx is set by drivers whose entry point receives the request's context.Context from the caller;
+// c19CtxDone is the request shape "the context is already cancelled when the request arrives" (the
+// caller went away): such a request is still decided, handled and exited like any other.
+var (
+	c19UsesCtx = false
+	c19CtxDone = false
+)
+
+// c19Ctx gives the context of the current request shape.
+func c19Ctx(parent c19context.Context) c19context.Context {
+	if !c19CtxDone {
+		return parent
+	}
+	ctx, cancel := c19context.WithCancel(parent)
+	cancel()
+	return ctx
+}
+
+// c19Matrix calls f for the 12 cases admitted x fallback x handler (x the request shapes).
 func c19Matrix(f func(admitted, fallback bool, handler string)) {
-	for _, admitted := range c19Bools {
-		for _, fallback := range c19Bools {
-			for _, handler := range c19Handlers {
-				f(admitted, fallback, handler)
+	for _, done := range c19Bools[:] {
+		done = !done // plain requests first
+		if done && !c19UsesCtx {
+			continue
+		}
+		c19CtxDone = done
+		for _, admitted := range c19Bools {
+			for _, fallback := range c19Bools {
+				for _, handler := range c19Handlers {
+					f(admitted, fallback, handler)
+				}
 			}
 		}
 	}
+	c19CtxDone = false
 	if c19os.Getenv("C19_PAIRS") == "" {
 		return
 	}
@@ -337,6 +367,9 @@ var c19Handlers = []string{"ok", "err", "panic"}
 func c19Name(ep string, admitted, fallback bool, handler string) string {
 	if c19PairTag != "" {
 		return c19fmt.Sprintf("c19-%s-pair%s", ep, c19PairTag)
+	}
+	if c19CtxDone {
+		return c19fmt.Sprintf("c19-%s-adm%t-fb%t-%s-ctxdone", ep, admitted, fallback, handler)
 	}
 	return c19fmt.Sprintf("c19-%s-adm%t-fb%t-%s", ep, admitted, fallback, handler)
 }
@@ -437,8 +470,10 @@ func c19HertzClientCase(t *testing.T, admitted, fallback bool, handler string) {
 	req.SetMethod(http.MethodGet)
 	req.SetRequestURI("http://localhost:19019/c19")
 	var err error
-	c.EscapedPanic = c19Guard(func() { err = h(context.Background(), req, resp) })
+	c.EscapedPanic = c19Guard(func() { err = h(c19Ctx(context.Background()), req, resp) })
 	c.Response = c19ErrText(err)
 	c.DefaultRejectionSeen = c19IsBlockErr(err) && resp.StatusCode() == http.StatusTooManyRequests
 	c19Finish(t, c)
 }
+
+func init() { c19UsesCtx = true }
